@@ -210,9 +210,11 @@ class BlockParser:
 		while index < len(text):
 			if text[index] in other_tokens:
 				other_index = other_tokens.find(text[index])
+				# 引用符の内側では、対応する引用符以外の括弧・引用符は単なる文字として扱う
+				in_quote = len(other_closes) > 0 and other_closes[-1] in '"\''
 				if len(other_closes) > 0 and other_closes[-1] == other_tokens[other_index]:
 					other_closes.pop()
-				elif other_index % 2 == 0:
+				elif other_index % 2 == 0 and not in_quote:
 					other_closes.append(other_tokens[other_index + 1])
 
 			index += 1
